@@ -33,7 +33,7 @@ func init() {
 	register(&Prop{
 		ID:    "C06",
 		Level: "exploration",
-		Rule: "the small character-recipe trees (shared with C02: overlapping requirements, duplicates, multi-byte) and the small wordlist-recipe trees (shared with C04: capitalisable, uncapitalisable, pre-capitalised and twin words under every scheme, functional separators with and without entropy, the presets), each explored completely through the real Generate; for every output its exact probability mass is compared with 2^-Entropy(), Password.Entropy is compared bitwise with Entropy() on every leaf, and on resolved trees the reported value must equal the min-entropy -log2(max mass) of the distribution given that a password is returned. evaluations = executions of Generate; distinct_nontrivial = distinct recipes with at least 2 outputs",
+		Rule:  "the small character-recipe trees (shared with C02: overlapping requirements, duplicates, multi-byte) and the small wordlist-recipe trees (shared with C04: capitalisable, uncapitalisable, pre-capitalised and twin words under every scheme, functional separators with and without entropy, the presets), each explored completely through the real Generate; for every output its exact probability mass is compared with 2^-Entropy(), Password.Entropy is compared bitwise with Entropy() on every leaf, and on resolved trees the reported value must equal the min-entropy -log2(max mass) of the distribution given that a password is returned. evaluations = executions of Generate; distinct_nontrivial = distinct recipes with at least 2 outputs",
 		Assumptions: []string{
 			"each bounded draw is uniform (C01)",
 			"tolerance: 4 float32 ulps of the entropy + 1e-6 bits (the published value goes through a few float32 operations)",
